@@ -2,6 +2,7 @@
     Property theorems only. *)
 From SpyneV Require Import Base.Digits Base.Ext C08.IntModel C08.DtModel C05.Valid C05.Proofs Gen.NumTypes.
 From SpyneV Require Import C05.Facets Gen.FacetTypes C05.FacetModel C05.FacetProofs C05.ArrayModel C05.ArrayProofs.
+From SpyneV Require Import Wire.Decimal C05.StepTypes Gen.C05Steps C05.StepModel C05.StepProofs.
 
 (** validate_native of every fixed-width integer class — generated from the source — equals the
     specification for ALL customised attribute sets and ALL integers *)
@@ -238,3 +239,84 @@ Example C05_ex_array :
   /\ flat_array d 3 = true /\ flat_array d 4 = false /\ flat_array d 0 = false
   /\ flat_array {| ad_wmin := 0; ad_wmax := Fin 1; ad_mmin := 2; ad_mmax := PosInf |} 0 = true.
 Proof. vm_compute. repeat split. Qed.
+
+(** ---------------------------------------------------------------- xsi:nil, xsi:type, enum, Decimal numbers
+    The functions below are GENERATED statement by statement from the source (Gen/C05Steps.v). *)
+
+(** an explicit xsi:nil under soft validation: accepted iff nillable, for every declared default and
+    both settings of replace_null_with_default; what arrives is None or that default *)
+Theorem C05_xml_nil_verdict : forall V nillable replace (default : option V),
+  nil_verdict_ok nillable default (xml_nil true nillable replace default)
+  /\ is_ok (xml_nil true nillable replace default) = nillable.
+Proof. exact xml_nil_verdicts. Qed.
+
+(** xsi:type never changes the class a primitive or an Array is read and validated as; the named
+    class is used only for a proper subclass of a declared complex type; no exception escapes *)
+Theorem C05_xsi_target_keeps_declared : forall q c,
+  must_stay_declared q = true -> xsi_target q = Ok c -> c = Declared.
+Proof. exact xsi_target_keeps_declared. Qed.
+Theorem C05_xsi_target_named : forall q, xsi_target q = Ok Named ->
+  xq_same_orig q = false /\ xq_sup_is_complex q = true /\ xq_sup_is_array q = false /\ xq_sub_extends_sup q = true.
+Proof. exact xsi_target_named. Qed.
+Theorem C05_xsi_target_total : forall q, is_crash (xsi_target q) = false.
+Proof. exact xsi_target_total. Qed.
+
+(** enumerated types, validator='soft': both readers (dict documents / HttpRpc / XML attributes, and XML
+    elements) accept exactly the declared names and deliver the member of that name *)
+Theorem C05_enum_readers_are_spec : forall M (class_attr : text -> M) nillable values ov,
+  enum_from_bytes class_attr true nillable values ov = enum_spec class_attr values ov
+  /\ enum_from_element class_attr true nillable values ov = enum_spec class_attr values ov.
+Proof. exact enum_readers_are_spec. Qed.
+Theorem C05_enum_readers_agree : forall M (class_attr : text -> M) nillable values ov,
+  enum_from_bytes class_attr true nillable values ov = enum_from_element class_attr true nillable values ov
+  /\ (forall m, enum_from_bytes class_attr true nillable values ov = Ok m ->
+        exists v, ov = Some v /\ In v values /\ m = class_attr v).
+Proof. exact enum_readers_agree'. Qed.
+
+(** Decimal.validate_native (generated) over Python's Decimal order = the range facets on numbers;
+    the verdict depends on the number, not on its representation *)
+Theorem C05_decimal_native_is_spec : forall a d, vn_Decimal a d = conforms_decimal a d.
+Proof. exact decimal_native_is_spec. Qed.
+Theorem C05_decimal_verdict_of_number : forall a d e, same_num d e -> conforms_decimal a d = conforms_decimal a e.
+Proof. exact conforms_same_num. Qed.
+Theorem C05_decimal_text_leaf_spec : forall a m d, (0 <= d_coef d)%Z -> ext_leb (Fin (len (dec_str d))) m = true ->
+  decimal_text_leaf a m (dec_str d) = if conforms_decimal a d then Ok d else VFault.
+Proof. exact decimal_text_leaf_spec. Qed.
+(** text path = number path: a decimal sent as a JSON / YAML / MessagePack NUMBER gets the verdict its
+    text gets over XML / SOAP / HttpRpc, given that str() of the number the sender wrote denotes that
+    decimal (CPython's shortest repr).  Proved over the conversion read from the source on every run. *)
+Theorem C05_decimal_number_is_text : forall (num : Type) (py_str : num -> text) (py_exact : num -> dec)
+    (sender : dec -> num) (sendable : dec -> Prop),
+  (forall d, sendable d -> exists d', dec_parse (py_str (sender d)) = Some d' /\ same_num d' d) ->
+  forall a m d, sendable d -> (0 <= d_coef d)%Z ->
+  ext_leb (Fin (len (dec_str d))) m = true -> ext_leb (Fin (len (py_str (sender d)))) m = true ->
+  same_verdict (decimal_number_leaf py_str py_exact a m (sender d)) (decimal_text_leaf a m (dec_str d))
+  /\ is_ok (decimal_number_leaf py_str py_exact a m (sender d)) = conforms_decimal a d.
+Proof. exact decimal_number_is_text. Qed.
+
+Example C05_ex_steps :
+  xml_nil true false true (Some 5%Z) = VFault /\ xml_nil true true true (Some 5%Z) = Ok (Some 5%Z)
+  /\ xml_nil true true false (Some 5%Z) = Ok None
+  /\ xsi_target {| xq_same_orig := true; xq_sup_is_array := false; xq_names_differ := true; xq_sup_is_complex := false;
+                   xq_sub_extends_sup := true |} = Ok Declared
+  /\ xsi_target {| xq_same_orig := false; xq_sup_is_array := false; xq_names_differ := true; xq_sup_is_complex := false;
+                   xq_sub_extends_sup := true |} = VFault
+  /\ xsi_target {| xq_same_orig := false; xq_sup_is_array := false; xq_names_differ := true; xq_sup_is_complex := true;
+                   xq_sub_extends_sup := true |} = Ok Named
+  /\ enum_from_bytes (fun v => v) true true [[114; 101; 100]%Z] (Some [114; 101; 100]%Z) = Ok [114; 101; 100]%Z
+  /\ enum_from_element (fun v => v) true true [[114; 101; 100]%Z] (Some [86; 97; 108; 117; 101]%Z) = VFault.
+Proof. vm_compute. repeat split. Qed.
+
+(** the hypotheses of C05_decimal_number_is_text are satisfiable: numbers that are decimals themselves *)
+Example C05_ex_decimal :
+  (forall d, (0 <= d_coef d)%Z -> exists d', dec_parse (dec_str ((fun x : dec => x) d)) = Some d' /\ same_num d' d)
+  /\ decimal_text_leaf (ex_dec_attrs DPosInf (DFin (mkdec false 1 (-1)))) (Fin 1024) (dec_str (mkdec false 1 (-1)))
+     = Ok (mkdec false 1 (-1))                                         (* le = 0.1 accepts 0.1 *)
+  /\ decimal_text_leaf (ex_dec_attrs (DFin (mkdec false 3 (-1))) DPosInf) (Fin 1024) (dec_str (mkdec false 3 (-1)))
+     = VFault                                                          (* lt = 0.3 refuses 0.3 *)
+  /\ conforms_decimal (ex_dec_attrs (DFin (mkdec false 3 (-1))) DPosInf) (mkdec false 30 (-2)) = false   (* and 0.30 *)
+  /\ decimal_number_reader = ViaShortestText.
+Proof.
+  split; [intros d Hd; exists d; split; [apply C02.DecimalProofs.dec_roundtrip; exact Hd|apply same_num_refl]|].
+  vm_compute. repeat split.
+Qed.
